@@ -3,6 +3,7 @@ package main
 import (
 	"fmt"
 	"go/token"
+	"go/types"
 	"sort"
 	"strings"
 
@@ -215,23 +216,55 @@ func checkC13(c *Ctx) {
 				}))
 				c.check(x.CommaOk, "R3", key, in, "comma-ok form: %v (operand %s)", x.CommaOk, clip(m.Sym.Of(x.X).String(), 120))
 			case *ssa.Index, *ssa.IndexAddr, *ssa.Slice:
-				var base, idx ssa.Value
+				var base ssa.Value
+				var bounds []ssa.Value
 				switch y := x.(type) {
 				case *ssa.Index:
-					base, idx = y.X, y.Index
+					base, bounds = y.X, []ssa.Value{y.Index}
 				case *ssa.IndexAddr:
-					base, idx = y.X, y.Index
+					base, bounds = y.X, []ssa.Value{y.Index}
 				case *ssa.Slice:
-					base, idx = y.X, y.High
+					base, bounds = y.X, []ssa.Value{y.Low, y.High, y.Max}
 				}
 				if base == nil || !m.recordDerived(base, 0) {
 					return
 				}
-				if _, isConst := idx.(*ssa.Const); idx == nil || isConst {
+				// only strings and byte slices (record contents), not decoded maps / varargs arrays
+				bt := base.Type().Underlying()
+				if p, ok := bt.(*types.Pointer); ok {
+					bt = p.Elem().Underlying()
+				}
+				isText := false
+				switch u := bt.(type) {
+				case *types.Basic:
+					isText = u.Info()&types.IsString != 0
+				case *types.Slice:
+					if b, ok := u.Elem().Underlying().(*types.Basic); ok && b.Kind() == types.Byte {
+						isText = true
+					}
+				}
+				if !isText {
+					return
+				}
+				bounded := false
+				for _, b := range bounds {
+					if b == nil {
+						continue
+					}
+					if k, isC := constInt(b); isC && k == 0 {
+						continue
+					}
+					bounded = true
+				}
+				if !bounded {
 					return
 				}
 				nAssert++
-				c.viol("R3", fmt.Sprintf("index on record data in %s", shortFn(f)), in, "record-derived bytes are indexed/sliced with a computed bound: out-of-range panics are possible for short records")
+				baseSym := m.Sym.Of(base).String()
+				guarded := hasLit(m.GuardsAt(in), true, func(s *Sym) bool { return strings.Contains(s.String(), "builtin.len("+baseSym) }) ||
+					hasLit(m.GuardsAt(in), false, func(s *Sym) bool { return strings.Contains(s.String(), "builtin.len("+baseSym) })
+				c.check(guarded, "R3", fmt.Sprintf("index/slice of record data in %s", shortFn(f)), in,
+					"record-derived text %s is indexed/sliced with a bound that no dominating len() test covers: %v (a record with a shorter value panics, e.g. in an error message built from the record's token)", clip(baseSym, 100), !guarded)
 			}
 		})
 	}
@@ -338,8 +371,14 @@ func (m *Model) recordDerived(v ssa.Value, depth int) bool {
 	case *ssa.UnOp:
 		return m.recordDerived(x.X, depth+1)
 	case *ssa.FieldAddr:
+		if m.taintedField(x.X.Type(), x.Field) {
+			return true
+		}
 		return m.recordDerived(x.X, depth+1)
 	case *ssa.Field:
+		if m.taintedField(x.X.Type(), x.Field) {
+			return true
+		}
 		return m.recordDerived(x.X, depth+1)
 	case *ssa.Lookup:
 		return m.recordDerived(x.X, depth+1)
@@ -367,6 +406,41 @@ func (m *Model) recordDerived(v ssa.Value, depth int) bool {
 		}
 	}
 	return false
+}
+
+// taintedField: somewhere in the library a record-derived value is stored into this field
+// of a library struct type (e.g. the record's token copied into an error value); reads of
+// the field anywhere are then record-derived too.
+func (m *Model) taintedField(t types.Type, idx int) bool {
+	n := namedOf(t)
+	if n == nil || n.Obj().Pkg() != m.P.Leader.Pkg {
+		return false
+	}
+	if m.fieldTaint == nil {
+		m.fieldTaint = map[string]bool{}
+		for round := 0; round < 2; round++ {
+			for _, f := range m.Funcs {
+				eachInstr(f, func(in ssa.Instruction) {
+					st, ok := in.(*ssa.Store)
+					if !ok {
+						return
+					}
+					fa, ok := st.Addr.(*ssa.FieldAddr)
+					if !ok {
+						return
+					}
+					tn := namedOf(fa.X.Type())
+					if tn == nil || tn.Obj().Pkg() != m.P.Leader.Pkg {
+						return
+					}
+					if m.recordDerived(st.Val, 0) {
+						m.fieldTaint[tn.Obj().Name()+"."+fieldName(fa.X.Type(), fa.Field)] = true
+					}
+				})
+			}
+		}
+	}
+	return m.fieldTaint[n.Obj().Name()+"."+fieldName(t, idx)]
 }
 
 // isDecodeTarget: the local is passed (by address) to json.Unmarshal together with record-derived bytes.
